@@ -6,7 +6,7 @@ import vcommon as V
 
 META = dict(
     text="Lean 4 theorems (Props/C15.lean) prove for every template at any nesting depth of lists, arrays and hashes, every value of the unquoted expressions and every data stack that the instruction sequence GenerateSyntaxQuote emits (marker / squash / explode / vectorize / hashize), run on the stack machine of vm.go, pushes exactly the structurally substituted template (Spec/Subst.lean: unquote -> its value, splice -> the elements of its list, incl. first/last/adjacent/empty splices), leaves the stack below untouched, fails exactly when the substitution is undefined, and that a splice outside any sequence is refused. The six unit-level examples in tests/*.zy cover flat templates only; the theorem covers all of them.",
-    note="Trusted: Lean kernel; axioms propext/Classical.choice/Quot.sound. Model/SQ.lean is hand-written and tied to zygo/generator.go + vm.go by the `sq` correspondence (exhaustive sequences up to length 3 over an 8-element alphabet x list/array x 3 input routes, random templates to depth 4, macro bodies x call sites), which is differential testing. The code of an unquoted expression is abstracted as one step that pushes one value (property C04); its value and the hash constructor are parameters. The reader sugar (^ ~ ~@) and the macro call path (Duplicate/Apply/Generate of the expansion) are tied by correspondence only.",
+    note="Trusted: Lean kernel; axioms propext/Classical.choice/Quot.sound. Model/SQ.lean is hand-written and tied to zygo/generator.go + vm.go by the `sq` correspondence (exhaustive sequences up to length 3 over an 8-element alphabet x list/array x 3 input routes, random templates to depth 4, instruction listings compared one by one, macro bodies x call sites), which is differential testing. The code of an unquoted expression is abstracted as one step that pushes one value (property C04); its value and the hash constructor are parameters. The reader sugar (^ ~ ~@) and the macro call path (Duplicate/Apply/Generate of the expansion) are tied by correspondence only.",
     technique="Lean 4 proof (marker discipline by mutual structural induction on templates) over an executable model + model/implementation correspondence",
     design_ref="DESIGN.md §7 C15",
 )
@@ -28,10 +28,12 @@ def run(rep):
     rows, stats = V.run_channel("sq", rep.seed, rep.tier)
 
     def nontrivial(op, impl):
-        return impl.startswith("ok ") or (impl.startswith("x ") and " eq " in impl)
+        return impl.startswith("ok ") or impl.startswith("code ") or (impl.startswith("x ") and " eq " in impl)
     bad_spec, bad_model = V.correspondence(rep, "sq", rows, stats, nontrivial=nontrivial)
     rep.coverage["exhaustive"] = False
     rep.coverage["rule"] = ("sq t: every sequence of length <= 3 over {literal, ~int, ~list, ~@(), ~@(1), ~@(1 2), nested list with splice, nested array with unquote} "
                             "as list and as array, through reader sugar, longhand and Go-API routes (exhaustive), plus random templates nested to depth 4 with error cases; "
-                            "sq m: macro bodies x argument forms x call sites (top, fn, let, loop, other macro). Non-trivial = the implementation produced a value.")
+                            "sq c: the same templates compiled only — the real instruction listing (overlay accessor) against the model's genTop output, instruction by instruction; "
+                            "sq m: macro bodies x type-directed argument forms x call sites (top, fn, let, loop, other macro), incl. wrong arity and ill-typed splices. "
+                            "Non-trivial = the implementation produced a value / a listing.")
     V.proof_break_resolution(rep, bool(bad_spec))
